@@ -104,12 +104,12 @@ func runOne(ctx context.Context, sp solverSpec, dir, base, script string, timeou
 }
 
 // solveRace races the solvers on one script; first definite answer wins.
-func solveRace(dir, base, script string, timeoutS int, unanimous bool) (status, solver, model string, ms int64) {
+func solveRace(dir, base, script string, timeoutS int, unanimous bool, qfScript string) (status, solver, model string, ms int64) {
 	t0 := time.Now()
 	ctx, cancel := context.WithCancel(context.Background())
 	defer cancel()
 	type ans struct{ st, sv, md string }
-	ch := make(chan ans, len(solvers))
+	ch := make(chan ans, len(solvers)+2)
 	start := func(sp solverSpec, delay time.Duration) {
 		go func() {
 			select {
@@ -122,15 +122,32 @@ func solveRace(dir, base, script string, timeoutS int, unanimous bool) (status, 
 			ch <- ans{st, sp.name, md}
 		}()
 	}
+	n := len(solvers)
+	if qfScript != "" {
+		// the same query with its remaining universal hypotheses dropped (only the generator's instances
+		// are kept): weaker hypotheses, so "unsat" is conclusive; any other answer is ignored
+		for _, k := range []int{0, 2} {
+			sp := solvers[k]
+			sp.name += "+qf"
+			n++
+			go func(sp solverSpec) {
+				st, md := runOne(ctx, sp, dir, base+"_qf", qfScript, timeoutS)
+				if st != "unsat" {
+					st, md = "ignored", ""
+				}
+				ch <- ans{st, sp.name, md}
+			}(sp)
+		}
+	}
 	for i, sp := range solvers {
 		d := time.Duration(0)
-		if !unanimous && i > 0 {
+		if !unanimous && (i > 0 || qfScript != "") {
 			d = 1500 * time.Millisecond // give the primary solver a head start
 		}
 		start(sp, d)
 	}
 	var got []ans
-	for range solvers {
+	for k := 0; k < n; k++ {
 		a := <-ch
 		got = append(got, a)
 		if !unanimous && (a.st == "unsat" || a.st == "sat") {
@@ -172,6 +189,9 @@ func solveRace(dir, base, script string, timeoutS int, unanimous bool) (status, 
 	return st, "", model, ms
 }
 
+// noLinNorm disables the bounds-directed normalisation of comparisons (linarith.go); GOWP_NOLIN=1.
+var noLinNorm = os.Getenv("GOWP_NOLIN") != ""
+
 // fullInstantiation disables the goal-directed selection of instances (retry pass).
 var fullInstantiation = false
 
@@ -183,6 +203,8 @@ func Discharge(obls []*Oblig, dir string, timeoutS int, par int, unanimous bool)
 	// phase 1 (sequential: term construction is not thread-safe): instantiate quantified hypotheses
 	// (see quant.go) and build the aggregated formula of every obligation
 	aggs := make([]*Term, len(obls))
+	qfAggs := make([]*Term, len(obls))
+	qfDisj := make([][]*Term, len(obls))
 	for i, o := range obls {
 		r := &SolveResult{Name: o.name, Kind: o.kind, Paths: o.paths, Desc: o.desc, Pos: o.pos, Fn: o.fn}
 		res[i] = r
@@ -195,10 +217,17 @@ func Discharge(obls []*Oblig, dir string, timeoutS int, par int, unanimous bool)
 			r.Solver = "syntactic"
 			continue
 		}
+		knownDistinct = o.distinct
+		if knownDistinct == nil {
+			knownDistinct = map[[2]int]bool{}
+		}
 		if o.kind != "cover" {
 			if o.raw == nil {
 				o.raw = append([]*Term{}, o.disj...)
+				o.rawNegs = append([]*Term{}, o.negs...)
 			}
+			o.disj = append([]*Term{}, o.raw...)
+			o.negs = append([]*Term{}, o.rawNegs...)
 			for k, dj := range o.raw {
 				if containsQuant(dj) {
 					var neg *Term
@@ -208,9 +237,41 @@ func Discharge(obls []*Oblig, dir string, timeoutS int, par int, unanimous bool)
 					o.disj[k] = instantiateQuery(dj, neg)
 				}
 			}
+			if !noLinNorm {
+				var nd, nn []*Term
+				for k := range o.disj {
+					g := normalizeComparisons(o.disj[k])
+					for _, piece := range splitOnConditions(g, 3) {
+						nd = append(nd, piece)
+						if k < len(o.negs) {
+							nn = append(nn, o.negs[k])
+						} else {
+							nn = append(nn, nil)
+						}
+					}
+				}
+				o.disj, o.negs = nd, nn
+			}
 		}
 		aggs[i] = Or(o.disj...)
+		if o.kind != "cover" && containsQuant(aggs[i]) {
+			qd := make([]*Term, len(o.disj))
+			ok := true
+			for k, dj := range o.disj {
+				q, good := dropQuants(dj, true)
+				if !good {
+					ok = false
+					break
+				}
+				qd[k] = q
+			}
+			if ok {
+				qfDisj[i] = qd
+				qfAggs[i] = Or(qd...)
+			}
+		}
 	}
+	knownDistinct = map[[2]int]bool{}
 	// phase 2 (parallel): printing and solving only
 	for i, o := range obls {
 		if aggs[i] == nil {
@@ -222,7 +283,7 @@ func Discharge(obls []*Oblig, dir string, timeoutS int, par int, unanimous bool)
 			defer wg.Done()
 			sem <- struct{}{}
 			defer func() { <-sem }()
-			script := Script([]*Term{aggs[i]}, true, "")
+			script := "; " + o.name + "\n" + Script([]*Term{aggs[i]}, true, "")
 			r.Bytes = len(script)
 			base := fmt.Sprintf("o%04d", i)
 			r.File = filepath.Join(dir, base)
@@ -235,7 +296,11 @@ func Discharge(obls []*Oblig, dir string, timeoutS int, par int, unanimous bool)
 			if len(o.disj) > 1 && timeoutS > 5 {
 				first = 5
 			}
-			st, sv, md, ms := solveRace(dir, base, script, first, unanimous)
+			qfs := ""
+			if qfAggs[i] != nil {
+				qfs = "; " + o.name + " (universal hypotheses dropped)\n" + Script([]*Term{qfAggs[i]}, true, "")
+			}
+			st, sv, md, ms := solveRace(dir, base, script, first, unanimous, qfs)
 			if (st == "unsat" || st == "sat") || len(o.disj) <= 1 {
 				r.Status, r.Solver, r.Model, r.Ms = st, sv, md, ms
 				return
@@ -262,7 +327,11 @@ func Discharge(obls []*Oblig, dir string, timeoutS int, par int, unanimous bool)
 						return
 					}
 					sc := Script([]*Term{dj}, true, "")
-					st, sv, md, ms := solveRace(dir, fmt.Sprintf("%s_p%d", base, k), sc, timeoutS, unanimous)
+					qfs := ""
+					if qfDisj[i] != nil {
+						qfs = Script([]*Term{qfDisj[i][k]}, true, "")
+					}
+					st, sv, md, ms := solveRace(dir, fmt.Sprintf("%s_p%d", base, k), sc, timeoutS, unanimous, qfs)
 					results[k] = pres{st, sv, md, ms}
 					if st != "unsat" {
 						atomic.StoreInt32(&failed, 1)
@@ -315,4 +384,50 @@ func containsQuant(t *Term) bool {
 		return false
 	}
 	return walk(t)
+}
+
+// dropQuants replaces the universal hypotheses that remain in an asserted formula by true (and negated
+// existentials by false). The result is implied by the input, so its unsatisfiability carries over.
+// ok is false when a quantifier occurs where its polarity is not determined.
+func dropQuants(t *Term, positive bool) (*Term, bool) {
+	if !containsQuant(t) {
+		return t, true
+	}
+	switch t.op {
+	case "not":
+		a, ok := dropQuants(t.args[0], !positive)
+		return Not(a), ok
+	case "and", "or":
+		out := make([]*Term, len(t.args))
+		for i, a := range t.args {
+			q, ok := dropQuants(a, positive)
+			if !ok {
+				return t, false
+			}
+			out[i] = q
+		}
+		if t.op == "and" {
+			return And(out...), true
+		}
+		return Or(out...), true
+	case "=>":
+		a, ok1 := dropQuants(t.args[0], !positive)
+		b, ok2 := dropQuants(t.args[1], positive)
+		return Implies(a, b), ok1 && ok2
+	case "ite":
+		if t.sort == BoolS && !containsQuant(t.args[0]) {
+			a, ok1 := dropQuants(t.args[1], positive)
+			b, ok2 := dropQuants(t.args[2], positive)
+			return Ite(t.args[0], a, b), ok1 && ok2
+		}
+	case "forall":
+		if positive {
+			return True, true
+		}
+	case "exists":
+		if !positive {
+			return False, true
+		}
+	}
+	return t, false
 }
